@@ -10,7 +10,7 @@ void htp_log(htp_connp_t *connp, const char *file, int line, enum htp_log_level_
 #ifndef KF_MODE_C18_config_copy_shared_hooks
 #define KF_MODE_C18_config_copy_shared_hooks 0
 #endif
-#if FUNC==1||FUNC==2||FUNC==6||FUNC==8
+#if FUNC==1||FUNC==2||FUNC==6||FUNC==8||FUNC==10
 void htp_urlenp_destroy(htp_urlenp_t *u){ assert(u==NULL); } void htp_mpartp_destroy(htp_mpartp_t *m){ assert(m==NULL); }
 #endif
 static int cb(void *p){ return HTP_OK; }
@@ -59,6 +59,12 @@ void harness(void){
     if(t){ static unsigned char l1[]="A: b", l2[]="a: c", l3[]="Host: x";
         htp_status_t r1=htp_process_request_header_generic(p,l1,4); htp_status_t r2=htp_process_request_header_generic(p,l2,4); htp_status_t r3=htp_process_request_header_generic(p,l3,7);
         if(r1==HTP_OK&&r2==HTP_OK&&r3==HTP_OK&&htp_table_size(t->request_headers)==2){ htp_header_t *h=htp_table_get_c(t->request_headers,"a"); assert(h!=NULL); } }
+    htp_connp_destroy_all(p);
+#elif FUNC==10  /* response header processing, then transaction teardown */
+    htp_connp_t *p=htp_connp_create(&CFG); if(p==NULL) goto done; htp_tx_t *t=htp_connp_tx_create(p);
+    if(t){ static unsigned char l1[]="A: b", l2[]="a: c", l3[]="Server: x"; p->out_tx=t;
+        htp_status_t r1=htp_process_response_header_generic(p,l1,4); htp_status_t r2=htp_process_response_header_generic(p,l2,4); htp_status_t r3=htp_process_response_header_generic(p,l3,9);
+        if(r1==HTP_OK&&r2==HTP_OK&&r3==HTP_OK&&htp_table_size(t->response_headers)==2){ htp_header_t *h=htp_table_get_c(t->response_headers,"a"); assert(h!=NULL); } }
     htp_connp_destroy_all(p);
 #elif FUNC==7   /* credentials */
     C.cfg=&CFG; C.in_tx=&TX; TX.connp=&C; static htp_header_t Hh; Hh.value=bstr_dup_c(KIND?"Digest username=\"ab\"":"Basic YTpi");
